@@ -1352,6 +1352,35 @@ class Interp:
         for a in alts:
             if a["exit"][0] != "next" or len(a["trace"]) != 1 or a["trace"][0][0] != "foldout":
                 raise Unsupported("fold step must be effect-free and end normally on every path")
+        # an accumulator that is only appended to is a collection (lemma foldl_append in lemmas/Rules.lean:
+        # foldl (fun acc x => acc ++ g x) init xs = init ++ xs.flatMap g): the same abstraction as the
+        # comprehension that builds the list in one expression
+        if len(carried) == 1 and kinds[0] in ("seq", "list"):
+            rests = []
+            for a in alts:
+                rest = _appended_only(a["trace"][0][1][0], accs[0])
+                if rest is None or any(_mentions(d, accs[0]) for d in a["decisions"]):
+                    if os.environ.get("PYVC_DEBUG_FOLD"):
+                        print("[append-only? no]", carried, rest is None, [str(z3.simplify(d))[:200].replace("\n", " ") for d in a["decisions"] if _mentions(d, accs[0])], str(z3.simplify(a["trace"][0][1][0]))[:200].replace("\n", " "), file=sys.stderr)
+                    rests = None
+                    break
+                rests.append(rest)
+            if rests is not None:
+                alts2 = [
+                    {"pc": list(a["pc"]), "decisions": list(a["decisions"]), "trace": ([("yieldfrom", r)] if r is not None else []), "exit": ("next",)}
+                    for a, r in zip(alts, [None if (z3.is_app(r) and r.decl().kind() == z3.Z3_OP_SEQ_EMPTY) else r for r in rests])
+                ]
+                collected = lib.collect_loop(self, ("loop", spec, idx, alts2))
+                val = z3.Concat(inits[0], collected)
+                self.assumed.append("rule:fold(append-only accumulator = collected sequence)")
+                self.elem_facts = [(q, f) for (q, f) in getattr(self, "elem_facts", []) if not any(z3.eq(q, a) for a in accs)]
+                for fct in acc_facts[0]:
+                    self.elem_facts = getattr(self, "elem_facts", []) + [(val, fct)]
+                n = carried[0]
+                frame.vars[n] = GenVal([("yieldfrom", val)]) if kinds[0] == "seq" else Py.list(val)
+                for nm in (_assigned_names(body) | _target_names(target)) - set(carried):
+                    frame.vars[nm] = Poison(nm)
+                return None
         # one function of (carried, element): the alternatives are merged by their branch conditions
         alts.sort(key=lambda a: "&".join(sorted(S.canon_text(d) for d in a["decisions"])))
         outs = list(alts[-1]["trace"][0][1])
@@ -1633,6 +1662,37 @@ class Interp:
         return v
 
 
+def _mentions(t, const):
+    seen = set()
+    stack = [t]
+    while stack:
+        e = stack.pop()
+        if e.get_id() in seen:
+            continue
+        seen.add(e.get_id())
+        if z3.eq(e, const):
+            return True
+        if z3.is_app(e):
+            stack.extend(e.arg(i) for i in range(e.num_args()))
+    return False
+
+
+def _appended_only(out, acc):
+    """out == acc ++ rest with rest not mentioning acc -> rest (Empty when out is acc itself); else None."""
+    o = z3.simplify(out)
+    if z3.eq(o, acc):
+        return z3.Empty(acc.sort())
+    if z3.is_app(o) and o.decl().kind() == z3.Z3_OP_SEQ_CONCAT and o.num_args() >= 2 and z3.eq(o.arg(0), acc):
+        rest = [o.arg(i) for i in range(1, o.num_args())]
+        r = rest[0] if len(rest) == 1 else z3.Concat(*rest)
+        return None if _mentions(r, acc) else r
+    if z3.is_app(o) and o.decl().kind() == z3.Z3_OP_ITE and not _mentions(o.arg(0), acc):
+        x, y = _appended_only(o.arg(1), acc), _appended_only(o.arg(2), acc)
+        if x is not None and y is not None:
+            return z3.If(o.arg(0), x, y)
+    return None
+
+
 def _fkey(fv):
     mod = fv.module.__name__ if fv.module is not None else "?"
     return f"{mod}:{fv.qualname}"
@@ -1670,13 +1730,24 @@ def _comprehension_targets(node):
     return out
 
 
+_MUTATORS = {"append", "extend", "insert", "pop", "remove", "clear", "sort", "reverse", "update", "setdefault", "add", "discard", "popitem", "appendleft", "extendleft"}
+
+
 def _assigned_names(body):
+    """Names (re)bound in the statements - including local containers changed in place: a mutator method
+    called on a name (`xs.append(v)`) or a store through it (`d[k] = v`, `del d[k]`) rebinds the name in
+    this interpreter (containers are values), so for the loop rules it is an assignment that reads the
+    previous value."""
     out = set()
     for s in body:
         inner = _comprehension_targets(s)
         for n in ast.walk(s):
             if isinstance(n, ast.Name) and isinstance(n.ctx, ast.Store) and id(n) not in inner:
                 out.add(n.id)
+            elif isinstance(n, ast.Call) and isinstance(n.func, ast.Attribute) and n.func.attr in _MUTATORS and isinstance(n.func.value, ast.Name):
+                out.add(n.func.value.id)
+            elif isinstance(n, ast.Subscript) and isinstance(n.ctx, (ast.Store, ast.Del)) and isinstance(n.value, ast.Name):
+                out.add(n.value.id)
     return out
 
 
@@ -1707,6 +1778,9 @@ def _loop_carried(body, target):
                     else:
                         carried.update((reads(t) & assigned) - defined)
                         defined.update(_target_names(t) if isinstance(t, (ast.Tuple, ast.List)) else set())
+            elif isinstance(s, (ast.Expr, ast.Delete)):
+                # an in-place change of a local container reads its previous value
+                carried.update((reads(s) & assigned) - defined)
             elif isinstance(s, ast.If):
                 carried.update((reads(s.test) & assigned) - defined)
                 d1, d2 = set(defined), set(defined)
